@@ -42,6 +42,7 @@ EVAL_OPS = [
     ("pdf", 5), ("cdf", 0.5), ("marginal_pdf", 1.2), ("marginal_cdf", 0.8), ("marginal_icdf", 1.2), ("conditional_cdf", 1.5), ("conditional_icdf", 1.5), ("dist_icdf", 1.5), ("dist_pdf", 1.5),
     ("draw_int", 3), ("draw_gen", 2), ("iform", 3), ("isorm", 2), ("hdc", 1.5), ("direct", 1.5), ("and", 1), ("or", 1), ("design", 1.5),
     ("plot_contour", 2), ("plot_iso", 0.8), ("plot_dep", 1.2), ("plot_mq", 0.5), ("plot_hist", 0.8), ("save", 1.5), ("slice", 1.5),
+    ("touch_returned", 1.5), ("deepcopy_eval", 1.0), ("repr", 0.5),
 ]
 T_OPS = [("pdf", 4), ("draw_int", 3), ("t_iform", 1.0), ("t_empirical", 0.6), ("t_cond_sample", 1.5)]
 
@@ -253,6 +254,27 @@ def run_op(slot, op, root):
         pt = _points(slot, rng, 1)
         x = arr(pt[0].copy() if rng.random() < 0.5 else pt)  # a single point as a 1-D array or as (1, n_dim)
         return np.asarray(m.cdf(_maybe_list(x, al))), inputs
+    if name == "touch_returned":
+        # the caller scribbles over objects the API handed out (parameter dicts, a contour's
+        # coordinates); the model must not notice
+        out = []
+        for dist in base.distributions:
+            prm = dist.parameters if not hasattr(dist, "conditional_parameters") else dist.distribution.parameters
+            for kk in list(prm):
+                prm[kk] = -12345.0
+            out.append(sorted(prm))
+        c = v.IFORMContour(m, 0.1, n_points=6)
+        before = np.array(c.coordinates, dtype=float)
+        c.coordinates[:] = 0.0
+        return [out, before, np.asarray(m.pdf(_points(slot, rng, 3)))], inputs
+    if name == "deepcopy_eval":
+        import copy as _copy
+
+        m2 = _copy.deepcopy(m)
+        x = arr(_points(slot, rng, 4))
+        return [np.asarray(m2.pdf(x)), np.asarray(m.pdf(x))], inputs
+    if name == "repr":
+        return [repr(m)[:40]], inputs
     if name == "dist_pdf":
         pts = _points(slot, rng, 5)[:, 0].copy()
         pts[0], pts[1] = 0.0, -0.3
